@@ -61,6 +61,14 @@ let handler (op : string) (args : string list) : string =
   | "master", [ s ] -> r32 (master_key hmac_sha512 (bytes_of_hex s))
   | "ckdpriv", [ k; i ] -> (
       match deser true k with Inl e -> "bad-input:" ^ e32 e | Inr xk -> r32 (ckd_priv hmac_sha512 hash160 xk (num_of_hex i)))
+  | "ckdprivpub", [ k; i ] -> (
+      (* PrivateKey.NewPublicChildKey = N(CKDpriv(k, i)), hardened indices included *)
+      match deser true k with
+      | Inl e -> "bad-input:" ^ e32 e
+      | Inr xk -> (
+          match ckd_priv hmac_sha512 hash160 xk (num_of_hex i) with
+          | Inl e -> e32 e
+          | Inr c -> (match neuter c with Some p -> ser p | None -> "none")))
   | "ckdpub", [ k; i ] -> (
       match deser false k with Inl e -> "bad-input:" ^ e32 e | Inr xk -> r32 (ckd_pub hmac_sha512 hash160 xk (num_of_hex i)))
   | "neuter", [ k ] -> (
